@@ -325,10 +325,23 @@ func VerifC18Drop() {
 		vstub.Cover("create-refused")
 		return
 	}
-	s2, err := p1.Create(ctx, n2, "eventlog", &CreateDBOptions{IO: e1.IO, Replicate: &no})
-	if err != nil {
-		vstub.Cover("create-refused")
-		return
+	var s2 iface.Store
+	sibling := vstub.NdChoice("sibling", 2)
+	if sibling == 0 {
+		s2, err = p1.Create(ctx, n2, "eventlog", &CreateDBOptions{IO: e1.IO, Replicate: &no})
+		if err != nil {
+			vstub.Cover("create-refused")
+			return
+		}
+	} else {
+		// the sibling is opened by an address with the SAME manifest root and another
+		// path: a distinct database (its own log id and cache directory) under one root
+		s2, err = p1.Open(ctx, "/orbitdb/"+s1.Address().GetRoot().String()+"/"+n2, &CreateDBOptions{IO: e1.IO, Replicate: &no})
+		if err != nil {
+			vstub.Cover("open-refused")
+			return
+		}
+		vstub.Cover("sibling-under-same-root")
 	}
 	if s1.Address().String() == s2.Address().String() {
 		return
@@ -383,8 +396,10 @@ func VerifC18Drop() {
 	if p2 == nil {
 		return
 	}
-	yes := true
-	r2, err := p2.Open(ctx, s2.Address().String(), &CreateDBOptions{IO: e2.IO, Replicate: &no, LocalOnly: &yes})
+	// (a database that was opened by address, not created here, has no local manifest
+	// record: LocalOnly is for the created sibling only)
+	localOnly := sibling == 0
+	r2, err := p2.Open(ctx, s2.Address().String(), &CreateDBOptions{IO: e2.IO, Replicate: &no, LocalOnly: &localOnly})
 	vstub.Assert(err == nil, "C18 after Close the directory is reopenable")
 	if err != nil {
 		return
